@@ -488,7 +488,7 @@ func genCase(t *rapid.T, env *ev.Env) Case {
 	default:
 		c.Auth = "enabled"
 	}
-	c.Target = rapid.SampledFrom([]string{"put", "put", "put", "part"}).Draw(t, "target")
+	c.Target = rapid.SampledFrom([]string{"put", "put", "part"}).Draw(t, "target")
 	c.Prior = rapid.IntRange(0, 3).Draw(t, "prior") == 0
 	c.Stack = rapid.SampledFrom([]string{"sql", "sql", "fs"}).Draw(t, "stack")
 	var q sigreq.Req
@@ -508,7 +508,10 @@ func genCase(t *rapid.T, env *ev.Env) Case {
 	}
 	q.Body = gen.Body([]int{16, 64, 1000, 8192, 65536}, max).Draw(t, "body")
 	q.Chunks = rapid.SliceOfN(rapid.SampledFrom([]int{1, 2, 3, 7, 16, 64, 100, 1000, 8192, 65536}), 1, 3).Draw(t, "chunks")
-	if q.Body.Len > 2000 {
+	if len(q.Chunks) == 1 && rapid.Bool().Draw(t, "secondSize") {
+		q.Chunks = append(q.Chunks, q.Chunks[0]/2+1)
+	}
+	if q.Body.Len > 300 {
 		// keep the number of chunks (each costs an HMAC) bounded
 		for i, n := range q.Chunks {
 			if n < 16 {
@@ -530,7 +533,16 @@ func genCase(t *rapid.T, env *ev.Env) Case {
 	if c.Auth == "enabled" {
 		n := rapid.IntRange(4, 8).Draw(t, "nMut")
 		for i := 0; i < n; i++ {
-			c.Muts = append(c.Muts, Mut{Kind: rapid.SampledFrom(mutKinds).Draw(t, "mutKind"), Chunk: rapid.IntRange(0, 40).Draw(t, "mutChunk"), Off: rapid.IntRange(0, 70000).Draw(t, "mutOff")})
+			kinds := make([]string, 0, len(mutKinds))
+			for _, k := range mutKinds {
+				switch {
+				case q.Mode == sigreq.ModeStream && strings.HasPrefix(k, "trailer-"):
+				case q.Mode == sigreq.ModeUnsignedTrailer && (k == "chunk-sig" || k == "trailer-sig"):
+				default:
+					kinds = append(kinds, k)
+				}
+			}
+			c.Muts = append(c.Muts, Mut{Kind: rapid.SampledFrom(kinds).Draw(t, "mutKind"), Chunk: rapid.IntRange(0, 40).Draw(t, "mutChunk"), Off: rapid.IntRange(0, 70000).Draw(t, "mutOff")})
 		}
 	}
 	return c
